@@ -20,7 +20,7 @@ from .. import core, parsers, rig, worlds
 
 ID = "C08"
 
-BASE = {"notes.txt.old.txt": b"n\n", "a.txt-b.txt": b"ab\n", "index.html.bak.html": b"<html><body>no title</body></html>\n", "a.txt": b"A\n", "b.html": worlds.HTML, "c.txt.gz": worlds.gz(b"c\n"), "d": {"inner.txt": b"i\n"}, "sub": {"x.txt": b"x\n"}, "a.txt.abstract": b"sidecar abstract of a\n", "e.txt": b"E\n"}
+BASE = {"prog.cc": b"int main(){}\n", "key.asc": b"-----\n", "caf\udce9.txt": b"latin-1 file name\n", "notes.txt.old.txt": b"n\n", "a.txt-b.txt": b"ab\n", "index.html.bak.html": b"<html><body>no title</body></html>\n", "a.txt": b"A\n", "b.html": worlds.HTML, "c.txt.gz": worlds.gz(b"c\n"), "d": {"inner.txt": b"i\n"}, "sub": {"x.txt": b"x\n"}, "a.txt.abstract": b"sidecar abstract of a\n", "e.txt": b"E\n"}
 
 # block = list of lines (bytes); kind o = override of ./target, n = new entry
 O = lambda target, *lines: ("o", target, [b"Path=./" + target] + list(lines))  # noqa: E731
@@ -41,6 +41,8 @@ BLOCKS = [
     N(b"Name=Zed", b"Type=0", b"Path=/z", b"Host=+", b"Port=+", b"Numb=10"),
     N(b"Name=Alpha", b"Type=0", b"Path=/dup", b"Host=+", b"Port=+", b"Numb=2"),
     O(b"a.txt", b"Numb=0"), O(b"e.txt", b"Name=echo renamed"), O(b"e.txt", b"Numb=0"), O(b"e.txt", b"Numb=3"),
+    O(b"e.txt", b"Name=caf\xe9 in latin-1", b"Abstract=r\xe9sum\xe9"), O(b"caf\xe9.txt", b"Name=renamed latin-1 file", b"Numb=1"),
+    N(b"Name=latin-1 \xe9ntry", b"Type=0", b"Path=/l\xe9", b"Host=+", b"Port=+"),
 ]
 
 
@@ -200,7 +202,7 @@ def check_case(capfiles, linkfiles, extstrip="nonencoded"):
         base = baseline_entries(w)
         for fname, blocks in capfiles.items():
             lines = blocks[0][2][1:] if blocks[0][0] == "o" else blocks[0][2]
-            rig.write_file(os.path.join(w.root, "t", ".cap", fname.decode()), b"\n".join(lines) + b"\n")
+            rig.write_file(os.path.join(os.fsencode(w.root), b"t", b".cap", fname), b"\n".join(lines) + b"\n")
         for fname, blocks in linkfiles.items():
             rig.write_file(os.path.join(w.root, "t", fname), render(blocks))
         got, err = listing(w)
@@ -209,13 +211,21 @@ def check_case(capfiles, linkfiles, extstrip="nonencoded"):
         why = compare(got, expected(base, capfiles, linkfiles))
         if why:
             return ("differs", why)
-        if extstrip != "nonencoded" or not capfiles and not linkfiles:
+        if True:
             # names without metadata: a known extension is removed from the file name, nothing else
             for sel, e in base.items():
                 fn = sel.rsplit(b"/", 1)[1]
                 if extstrip == "none" and e["name"] not in (fn, b"An HTML Title"):
                     return ("extstrip", "extstrip=none but %r is shown as %r" % (fn, e["name"]))
-                if e["name"] in (fn, b"An HTML Title"):
+                if e["name"] == b"An HTML Title":
+                    continue
+                if e["name"] == fn:
+                    from .c04 import ref_mime
+
+                    t, encoding = ref_mime(fn)
+                    must_strip = e["type"] != b"1" and t is not None and (extstrip == "full" or (extstrip == "nonencoded" and not encoding))
+                    if must_strip:
+                        return ("extstrip", "extstrip=%s: %r has the known type %s but its extension is not stripped" % (extstrip, fn, t))
                     continue
                 removed = fn[len(e["name"]):] if fn.startswith(e["name"]) else None
                 if removed is None or removed not in _known_suffixes(fn):
